@@ -35,6 +35,10 @@ def double(x):
     return 2.0 * x
 
 
+def last_four(ts):
+    return ts[-4:]
+
+
 FILTERS = {"negate": negate, "cumsum": cumsum, "double": double, None: None}
 
 
@@ -63,7 +67,7 @@ def make(name, o, weights=None, filters=None):
     from black_it.loss_functions.minkowski import MinkowskiLoss
     from black_it.loss_functions.msm import MethodOfMomentsLoss
 
-    w = None if weights is None else np.array(weights, dtype=float)
+    w = None if weights is None else np.array(weights)   # a list of Python ints stays an INTEGER array (e.g. a 0/1 mask typed by hand)
     f = None if filters is None else [FILTERS[x] for x in filters]
     if name == "minkowski":
         return MinkowskiLoss(p=o.get("p", 2), coordinate_weights=w, coordinate_filters=f)
@@ -72,7 +76,12 @@ def make(name, o, weights=None, filters=None):
     if name == "gsl":
         return GslDivLoss(nb_values=o.get("nb_values"), nb_word_lengths=o.get("nb_word_lengths"), coordinate_weights=w, coordinate_filters=f)
     if name == "msm":
-        return MethodOfMomentsLoss(covariance_mat=o.get("cov", "identity"), coordinate_weights=w, coordinate_filters=f, standardise_moments=o.get("std", False))
+        kw = {}
+        if o.get("calc") == "view":
+            kw["moment_calculator"] = last_four      # returns a VIEW of the series it is given
+        elif o.get("calc") == "asarray":
+            kw["moment_calculator"] = np.asarray     # returns its argument itself
+        return MethodOfMomentsLoss(covariance_mat=o.get("cov", "identity"), coordinate_weights=w, coordinate_filters=f, standardise_moments=o.get("std", False), **kw)
     if name == "likelihood":
         import warnings
 
@@ -102,7 +111,14 @@ def ev(loss, sim, real):
 
     with warnings.catch_warnings(), np.errstate(all="ignore"):
         warnings.simplefilter("ignore")
-        return float(loss.compute_loss(sim, real))
+        try:
+            return float(loss.compute_loss(sim, real))
+        except Exception as e:  # noqa: BLE001  (no evaluation of the menu raises on a correct tree; reported by check_config)
+            RAISED.append(f"{type(e).__name__}: {e}")
+            return float("nan")
+
+
+RAISED: list = []
 
 
 UNDEFINED = [0]
@@ -120,13 +136,16 @@ MAXLEN = [3]
 
 def check_config(name, o, D, res, viol):
     base_compute = name != "likelihood"
-    wsets = [None] + ([[1.0, 0.0], [0.3, 0.7]] if D == 2 else [[2.0]])
+    wsets = [None] + ([[1.0, 0.0], [0.3, 0.7], [2, 1], [1, 0]] if D == 2 else [[2.0], [3]])
     fsets = [None] + ([["double", None], ["cumsum", "negate"]] if D == 2 else [["cumsum"]])
     M = menu(D)
     for w in wsets:
         for f in fsets:
             case = {"loss": name, "opts": o, "D": D, "weights": w, "filters": f}
             tag = f"{name}{o} D={D} weights={w} filters={f}"
+            if RAISED:
+                viol("compute-loss-raises:" + name, f"{name}{o} D={D}: compute_loss raised on a well-formed input: {RAISED[0]}", case)
+                del RAISED[:]
             fresh = []
             for sim, real in M:
                 fresh.append(ev(make(name, o, w, f), sim, real))
@@ -229,7 +248,8 @@ def check_config(name, o, D, res, viol):
                 continue  # documented: weights are ignored by the likelihood loss
             res["evaluations"] += 1
             try:
-                ev(make(name, o, **kw), sim, real)
+                with np.errstate(all="ignore"):
+                    make(name, o, **kw).compute_loss(sim, real)
                 viol(f"wrong-length-{what}-accepted:" + name, f"{name}{o} D={D}: {what} of length {n} accepted", {"loss": name, "opts": o, "D": D, "weights": kw.get("weights"), "filters": kw.get("filters")})
             except ValueError:
                 pass
@@ -242,12 +262,14 @@ CONFIGS = [
     ("fourier", {"kind": "ideal", "f": 0.5}), ("fourier", {"kind": "gaussian", "f": 0.8}), ("fourier", {"kind": "gaussian", "f": 1.0}),
     ("gsl", {"nb_values": 3, "nb_word_lengths": 2}), ("gsl", {"nb_values": None, "nb_word_lengths": None}), ("gsl", {"nb_values": 4, "nb_word_lengths": 3}),
     ("msm", {"cov": "identity", "std": False}), ("msm", {"cov": "inverse_variance", "std": False}), ("msm", {"cov": "identity", "std": True}),
+    ("msm", {"cov": "identity", "std": True, "calc": "view"}), ("msm", {"cov": "identity", "std": False, "calc": "asarray"}), ("msm", {"cov": "inverse_variance", "std": True, "calc": "view"}),
     ("likelihood", {"h": "silverman"}), ("likelihood", {"h": "scott"}), ("likelihood", {"h": 0.5}),
     ("stub_sumabs", {}), ("stub_maxabs", {}), ("stub_mismatch", {}),
 ]
 
 
 def run_cell(cell):
+    del RAISED[:]
     res = {"evaluations": 0, "nontrivial": 0, "states": 0, "transitions": 0, "traces": 0, "stats": {}, "outcomes": set(), "violations": [], "samples": []}
 
     def viol(key, what, case):
@@ -257,6 +279,9 @@ def run_cell(cell):
     MAXLEN[0] = cell.get("maxlen", 3)
     for name, o, D in cell["configs"]:
         check_config(name, o, D, res, viol)
+        if RAISED:
+            viol("compute-loss-raises:" + name, f"{name}{o} D={D}: compute_loss raised on a well-formed input: {RAISED[0]}", {"loss": name, "opts": o, "D": D, "weights": None, "filters": None})
+            del RAISED[:]
         res["outcomes"].add((name, D))
     res["stats"]["undefined_by_definition"] = UNDEFINED[0]
     UNDEFINED[0] = 0
@@ -269,13 +294,17 @@ def run_cell(cell):
 def replay_case(case):
     found = []
     res = {"evaluations": 0, "nontrivial": 0, "transitions": 0, "traces": 0}
+    del RAISED[:]
     check_config(case["loss"], case["opts"], case["D"], res, lambda k, w, c: found.append({"key": k, "what": w}))
+    if RAISED:
+        found.append({"key": "compute-loss-raises:" + case["loss"], "what": RAISED[0]})
+        del RAISED[:]
     return found
 
 
 def main(ctx):
     cells = [{"configs": [(n, o, D)], "maxlen": 3 if ctx.quick else 4} for n, o in CONFIGS for D in (1, 2)]
-    ctx.bounds = {"losses": [c[0] + str(c[1]) for c in CONFIGS], "coordinates": [1, 2], "weights": [None, [1, 0], [0.3, 0.7], [2.0]], "filters": [None, ["double", None], ["cumsum", "negate"], ["cumsum"]],
+    ctx.bounds = {"losses": [c[0] + str(c[1]) for c in CONFIGS], "coordinates": [1, 2], "weights": [None, [1.0, 0.0], [0.3, 0.7], [2.0], "integer-typed [2, 1], [1, 0], [3]"], "moment_calculators": ["default", "a view of the series", "the series itself"], "filters": [None, ["double", None], ["cumsum", "negate"], ["cumsum"]],
                   "evaluation_sequences": "all sequences of length <= 3 (84; thorough <= 4: 340, moments <= 3) over a menu of 4 inputs", "ensemble_permutations": "all 6 for E = 3"}
     ctx.rule = "every (loss configuration, D, weights, filters) x every clause; non-trivial = evaluation sequences of length >= 2"
     ctx.assumptions = ["LikelihoodLoss overrides compute_loss and documents that weights are ignored: clauses 3, 4a and the weight-length clause are not applied to it",
